@@ -6,4 +6,9 @@ META = {
         note="Trusted: Lean kernel; the go/ast translator (cross-checked by the BFS correspondence on the real type); sync.Mutex atomicity of each method; blocking variants only as an abstract tick loop (C12_blocking_partial).",
         technique="Lean 4 invariant + refinement proof over definitions regenerated from rwmutex.go; exhaustive differential check of the real type",
     ),
+    "C18": dict(
+        text="Machine-checked proofs (Lean 4, all frame values, all byte strings, unbounded lengths) of round trip, every-proper-prefix-is-an-error (ErrUnexpectedEOF except the empty prefix of a frame), decode soundness on arbitrary bytes (a successful decode consumed exactly the encoding of the value returned) and writer chunk-size bounds, for models of the stream-frame, position-map and chunked-body codecs; the models are compared with the real codecs on generated inputs (all types, lengths around 65535, every prefix, garbage, hostile length prefixes, three read-split modes) and allocation is measured.",
+        note="Trusted: Lean kernel; hand-written codec model (correspondence-checked); Go's io.ReadFull/binary.Read/io.CopyN; allocation measured via runtime.MemStats; split-independence is by io.ReadFull (exercised with 3 split modes, not proved).",
+        technique="Lean 4 parser-combinator model with generic encoding/prefix lemmas; differential check against the real codecs",
+    ),
 }
